@@ -9,6 +9,17 @@ COMMON_NOTE = ("Trusted: Coq 8.16.1 kernel; extraction with ExtrOcamlBasic only 
                "the radix-tree library, flock(2), goroutine scheduling. See DESIGN.md section 5.")
 
 CHECKS = {
+ 'C12': dict(text="Proof (Coq): in every state satisfying Inv, for every offset set and every hash function, a successful Delete of the model "
+                  "reports exactly the requested records of the segment holding the smallest requested offset (full content), the abstract "
+                  "log afterwards is the old one minus exactly those messages, NextOffset and the invariant are preserved and the size is the "
+                  "sum of record + index-item sizes in the source format - in all structural outcomes (reader / writing segment; same base, "
+                  "rebased, emptied, newest message removed with a fresh empty head); the result is accepted by check_delete; relative offsets "
+                  "give ErrInvalidOffset, the empty set is a no-op. DeleteMulti and idempotence are covered by the correspondence and the "
+                  "checkers (their Coq proofs are future work, stated in DESIGN.md). Tied to /repo by seeded histories with offset sets "
+                  "drawn by class (first/last/single/subset/range/all/tail/head/dead/unassigned/mixed), Delete and DeleteMulti results "
+                  "compared with the extracted model and evaluated by check_delete/check_delete_multi with the exact per-message source "
+                  "format read from the file headers.",
+             ref='6/C12', technique='Coq proof (refinement of Delete to the abstract log, invariant preservation) + differential correspondence'),
  'C13': dict(text="Proof (Coq), for every checksum function with values below 2^32: the transcribed V1/V2 decoder applied to the "
                   "documented encoding of any message within the writer's guards, anywhere in a file, returns that message and the next "
                   "position; a whole encoded log scans back to exactly its messages at the prefix-sum positions; encoded record and "
